@@ -446,8 +446,24 @@ def handle (line : String) : String :=
   | ["py2ba", proto, g, t, l, a, r, hex] =>      -- bytearray(text, 'latin-1') as Python 2 writes it; the five memo PUTs: an index or -
     let opt (x : String) : Option (Option Nat) := if x == "-" then some none else x.toNat?.map some
     match proto.toNat?, opt g, opt t, opt l, opt a, opt r, bytesOfHex? hex with
-    | some p, some g, some t, some l, some a, some r, some bs => "OK " ++ hexOfBytes (py2BytearrayPickle p ⟨g, t, l, a, r⟩ bs)
+    | some p, some g, some t, some l, some a, some r, some bs =>
+      if p == 0 then
+        match py2BytearrayPickle0 ⟨g, t, l, a, r⟩ bs with
+        | some out => "OK " ++ hexOfBytes out
+        | none => "UNMODELLED"
+      else "OK " ++ hexOfBytes (py2BytearrayPickle p ⟨g, t, l, a, r⟩ bs)
     | _, _, _, _, _, _, _ => "BADCASE"
+  | ["py2uni", proto, put, hex] =>      -- what Python 2's picklers write for a unicode object
+    match proto.toNat?, bytesOfHex? hex with
+    | some p, some bs =>
+      let o : Option (Option Nat) := if put == "-" then some none else put.toNat?.map some
+      match o with
+      | some pt =>
+        match py2UnicodePickle p pt bs with
+        | some out => "OK " ++ hexOfBytes out
+        | none => "UNMODELLED"
+      | none => "BADCASE"
+    | _, _ => "BADCASE"
   | ["py2repr", hex] =>      -- repr of a Python-2 str (the STRING argument Python 2's pickler writes)
     match bytesOfHex? hex with
     | some bs => "OK " ++ hexOfBytes (py2repr bs)
